@@ -69,6 +69,23 @@ def check(model: Model, run: Run) -> None:
     cons = model.calls_to(est.module, est.node, 'ReceiveTimer')
     okc = bool(cons) and len(cons[0].args) >= 4 and Loc(model, est).expand(cons[0].args[1]).endswith('negotiated.holdtime') and folder.fold(cons[0].args[2], est.module, est.cls) == 4 and folder.fold(cons[0].args[3], est.module, est.cls) == 0
     run.check(okc, est.qualname, 'ReceiveTimer(session, negotiated.holdtime, 4, 0)', est.loc(cons[0]) if cons else est.loc(), 'the receive timer must use the negotiated hold time and 4/0')
+    # ... for EVERY session: the hold time is negotiated anew each time, so the timer of the previous session is not kept.
+    # On each path of _establish that reaches ESTABLISHED the receive timer is (re)built, or its holdtime is stored again.
+    if cons:
+        from ..cfg import CFG as _CFG12
+
+        cfg12 = _CFG12(est.node)
+        from .C05 import change_target
+
+        goal = [c_ for c_ in walk_no_nested(est.node) if isinstance(c_, ast.Call) and change_target(model, est, c_) == 'ESTABLISHED']
+        fresh = {x.id for c_ in cons for x in [cfg12.stmt_node_containing(c_)] if x is not None}
+        fresh |= {x.id for n_ in walk_no_nested(est.node) if isinstance(n_, ast.Assign) and (dotted(n_.targets[0]) or '').endswith('recv_timer.holdtime') for x in cfg12.nodes_of(n_)}
+        gn = cfg12.stmt_node_containing(goal[0]) if goal else None
+        if gn is None:
+            run.cannot('_establish: change(ESTABLISHED) not located')
+        else:
+            ok_all, path = cfg12.all_paths_pass(cfg12.entry.id, fresh, {gn.id}, skip_labels=('exc',))
+            run.check(ok_all, est.qualname, 'the receive timer takes the hold time of THIS session on every path to ESTABLISHED', est.loc(cons[0]), 'a path reaches ESTABLISHED without building the timer (it is kept from the previous session when one exists): after a reconnect that negotiates another hold time the old one is enforced - 30 s kept when 3 s was negotiated, or a timer that fires although the new hold time is 0')
 
     # ------------------------------------------------------------------ R2 send timer
     run.rule('C12.R2', 'HoldTime.keepalive() = holdtime / 3; SendTimer.need_ka returns False when that is 0 and otherwise fires when last_sent + keepalive - now <= 0, recording the send time', floor=4)
